@@ -138,6 +138,7 @@ func EvalAPI(dir string, w *world.World, c *world.Conc, seed int64, maxPairs int
 					if (port+n)%2 == 0 {
 						pr = strings.ToLower(proto)
 					}
+					Tick()
 					b, err := pe.CheckIfAllowed(p.s.name, p.d.name, pr, strconv.Itoa(port))
 					cd := code(b, err)
 					if err != nil && q.Msg == "" {
